@@ -293,6 +293,20 @@ func (c *Ctx) compactCase(ns share.Namespace, txs [][]byte, allRanges bool) {
 		h := sha256.Sum256(txs[i])
 		v := rs[h]
 		mstr = append(mstr, fmt.Sprintf("%s:%d-%d", dig(txs[i]), v.Start, v.End))
+		if nonEmpty && v.Start < v.End && v.End <= len(shares) {
+			// C12: parsing just the shares of the recorded range yields a list containing the transaction
+			c.oracle()
+			got, perr := share.ParseTxs(shares[v.Start:v.End])
+			found := false
+			for _, g := range got {
+				if bytes.Equal(g, txs[i]) {
+					found = true
+				}
+			}
+			if perr != nil || !found {
+				c.violate("C12", "", fmt.Sprintf("parsing the recorded range [%d,%d) of tx %d (%d bytes) does not yield that transaction", v.Start, v.End, i, len(txs[i])), "", c.caseOps)
+			}
+		}
 		if nonEmpty {
 			c.oracle()
 			wantS, wantE := shareOf(starts[i]), shareOf(ends[i]-1)+1
@@ -389,6 +403,43 @@ func streamCompact(c *Ctx) {
 			c.dist("straddling-prefix")
 		}
 	}
+	// the first unit of a share starting at EVERY in-share byte offset that matters for the reserved bytes:
+	// 34..38 (right after the header), 255..257 (0x00ff / 0x0100 / 0x0101: low byte zero), 509..511 (the last
+	// bytes), in the first and in continuation shares, followed by further units in the same share
+	for _, inShare := range []int{34, 35, 38, 39, 127, 128, 255, 256, 257, 258, 300, 509, 510, 511} {
+		for _, shareIdx := range []int{0, 1, 2} {
+			hdr := 34
+			off := 474 + 478*(shareIdx-1)
+			if shareIdx == 0 {
+				hdr, off = 38, 0
+			}
+			if inShare < hdr {
+				continue
+			}
+			start := off + inShare - hdr // stream offset at which the unit must start
+			// one unit that begins in an earlier share (or at 0) and ends exactly at `start`
+			var pre [][]byte
+			if start > 0 {
+				L := start - 1
+				for L > 0 && L+uvarintLen(L) > start {
+					L--
+				}
+				if L+uvarintLen(L) != start {
+					continue
+				}
+				pre = append(pre, c.payload(L))
+			}
+			for _, tail := range [][]int{{10, 10}, {600, 3}, {3}, {1000}} {
+				txs := append([][]byte(nil), pre...)
+				for _, n := range tail {
+					txs = append(txs, c.payload(n))
+				}
+				c.compactCase(nss[(inShare+shareIdx)%2], txs, true)
+				c.dist("directed-unit-start")
+			}
+		}
+	}
+	c.stats.Exhaustive = append(c.stats.Exhaustive, "first unit of a share at in-share offsets 34..39, 127/128, 255..258, 300, 509..511 x share 0/1/2 x 4 tails")
 	nl := c.n(500, 10000)
 	for i := 0; i < nl; i++ {
 		k := c.rng.Range(1, 9)
@@ -399,7 +450,7 @@ func streamCompact(c *Ctx) {
 			if c.thorough && c.rng.Chance(1, 30) {
 				n = c.rng.Range(3000, 40000)
 			}
-			txs[j] = c.rng.Bytes(n)
+			txs[j] = c.payload(n)
 			desc += fmt.Sprint(n, ",")
 		}
 		if c.rng.Chance(1, 12) && k > 1 { // duplicate tx bytes (range map: last writer wins)
